@@ -90,6 +90,9 @@ def rand_ell(rnd, lo_invf=150.0, hi_invf=400.0):
         return 'intl24'
     if r < 0.80:
         return rnd.choice([[6300000.0, lo_invf], [6400000.0, hi_invf], [6300000.0, hi_invf], [6400000.0, lo_invf]])
+    if r < 0.84:
+        # a user-built Ellipsoid with exactly a shipped one's defining values: equal, but not the same object
+        return list(PUBLISHED_ELL[rnd.choice(['grs80', 'ans', 'wgs84', 'intl24'])])
     return [round(rnd.uniform(6.3e6, 6.4e6), rnd.choice([0, 3])), round(rnd.uniform(lo_invf, hi_invf), rnd.choice([2, 9]))]
 
 
@@ -99,6 +102,10 @@ def rand_prj(rnd):
         return 'utm'
     if r < 0.70:
         return 'isg'
+    if r < 0.76:
+        # a user-built Projection with exactly a shipped one's five values: equal, but not the same object.  It is an
+        # ordinary user-defined projection (zones numbered 1.. from the initial central meridian), also for ISG's values.
+        return list(PUBLISHED_PRJ[rnd.choice(['utm', 'isg'])])
     zw = rnd.choice([1.0, 2.0, 3.0, 6.0])
     if zw == 6.0:
         icm = -177.0
@@ -336,10 +343,39 @@ def call_forward(ns, case, la, lo, ell, prj):
     return ns.convert.geo2grid(la, lo, case['zone'], ell, prj)
 
 
+# ---------------------------------------------------------------------------------------------
+# calls the properties do not speak about (rejected or meaningless arguments), made before a judged call:
+# not judged, exceptions swallowed - the judged call after them must be as right as ever
+# ---------------------------------------------------------------------------------------------
+def gen_unjudged_calls(rnd):
+    out = []
+    for _ in range(rnd.choice([1, 1, 2])):
+        ell = rnd.choice(['grs80', 'ans', 'wgs84', 'intl24', [6378200.0, 299.5]])
+        prj = rnd.choice(['utm', 'utm', 'isg', [400000.0, 0.0, 0.9999, 3.0, -178.5]])
+        if rnd.random() < 0.5:
+            lat = rnd.choice([85.0, -80.5, 90.0, float('nan'), 'x', rnd.uniform(-80, 84)])
+            lon = rnd.choice([181.0, -180.5, 360.0, float('nan'), rnd.uniform(-180, 180), rnd.uniform(140, 155)])
+            zone = rnd.choice([61, -1, 999, 540, 573, 0, 56, 561, 1.5])
+            out.append({'fn': 'geo2grid', 'args': [lat, lon, zone], 'ell': ell, 'prj': prj})
+        else:
+            zone = rnd.choice([0, 61, -3, 999, 540, 573, 56, 561, 'x'])
+            east = rnd.choice([-1e7, 2e7, float('nan'), 500000.0, rnd.uniform(1e5, 9e5)])
+            north = rnd.choice([-5.0, 2e7, float('nan'), rnd.uniform(0, 1e7)])
+            hemi = rnd.choice(['south', 'north', 'East', '', None, 0])
+            out.append({'fn': 'grid2geo', 'args': [zone, east, north, hemi], 'ell': ell, 'prj': prj})
+    return out
+
+
+def run_unjudged_calls(ns, ctx, case):
+    for call in case.get('before') or ():
+        core.unjudged(ctx, getattr(ns.convert, call['fn']), *call['args'], ell_obj(ns, call['ell']), prj_obj(ns, call['prj']))
+
+
 def judge_forward(ns, ctx, case, aspects):
     """aspects: subset of {'F' (C01 exactness/zone/hemisphere), 'K' (C10 psf/conv of forward),
     'RT' (C02 geo->grid->geo), 'KI' (C10 inverse psf/conv and forward/inverse agreement)}.
     Returns the library result (or None)."""
+    run_unjudged_calls(ns, ctx, case)
     ell = ell_obj(ns, case['ell'])
     prj = prj_obj(ns, case['prj'])
     a, invf = ell_published(case['ell'])
@@ -474,6 +510,7 @@ def judge_forward(ns, ctx, case, aspects):
 def judge_grid(ns, ctx, case, aspects):
     """Grid-lattice case.  aspects: 'I' (C02 inverse vs oracle + round trip + mirror + stand-alone),
     'KI' (C10 psf/conv of the inverse)."""
+    run_unjudged_calls(ns, ctx, case)
     ell = ell_obj(ns, case['ell'])
     prj = prj_obj(ns, case['prj'])
     a, invf = ell_published(case['ell'])
